@@ -334,6 +334,8 @@ def classify_invalid(msg):
         return "exclusive-bound-is-a-number"
     if "unsupported 'type' value" in msg and "header schema is invalid" in msg:
         return "response-header-type-is-a-goa-type-name"
+    if re.search(r'security scheme "[^"]*": identifier "[^"]*" is not supported by OpenAPIv3', msg):
+        return "security-scheme-name-outside-component-key-charset"
     m = re.search(r'more than one "(\w+)" parameter has name "([^"]+)"', msg)
     if m:
         return "duplicate-%s-parameter-%s" % (m.group(1), m.group(2))
